@@ -100,16 +100,17 @@ func accessors(lv *levelCtx, md protoreflect.MessageDescriptor, gm, dm protorefl
 	}
 	order := r.Perm(fs.Len())
 	for _, i := range order {
-		fd := fs.Get(i)
+		fd := fs.Get(i) // descriptor of the dynamic side (the input schema)
+		gfd := g2.Descriptor().Fields().ByNumber(fd.Number())
 		fn, ok := names.Fields[strconv.Itoa(int(fd.Number()))]
-		if !ok {
+		if !ok || gfd == nil {
 			continue
 		}
 		out.Evals++
 		// --- read side
 		if get := method(fd, fn.Get); get.IsValid() && get.Type().NumIn() == 0 && get.Type().NumOut() == 1 {
 			res := get.Call(nil)[0]
-			want := g2.Get(fd)
+			want := g2.Get(gfd)
 			switch {
 			case fd.IsMap():
 				if res.Len() != want.Map().Len() {
@@ -135,7 +136,7 @@ func accessors(lv *levelCtx, md protoreflect.MessageDescriptor, gm, dm protorefl
 				}
 			default:
 				a, b := canonGo(fd, res), canonPR(fd, want)
-				if fd.Message() != nil && !g2.Has(fd) {
+				if fd.Message() != nil && !g2.Has(gfd) {
 					b = "nil"
 				}
 				if a != b {
@@ -145,7 +146,7 @@ func accessors(lv *levelCtx, md protoreflect.MessageDescriptor, gm, dm protorefl
 			hist("accessor:get")
 		}
 		if has := method(fd, fn.Has); has.IsValid() && has.Type().NumIn() == 0 {
-			if has.Call(nil)[0].Bool() != g2.Has(fd) {
+			if has.Call(nil)[0].Bool() != g2.Has(gfd) {
 				bad("generated Has method disagrees with protoreflect Has", fd, fn.Has)
 			}
 			hist("accessor:has")
@@ -163,7 +164,7 @@ func accessors(lv *levelCtx, md protoreflect.MessageDescriptor, gm, dm protorefl
 					key := scalar(r, fd.MapKey(), Opts{})
 					var gv, dvv protoreflect.Value
 					if fd.MapValue().Message() != nil {
-						gv = g2.NewField(fd).Map().NewValue()
+						gv = g2.NewField(gfd).Map().NewValue()
 						dvv = dmp.Map().NewValue()
 						seed := r.Int63()
 						fill(rand.New(rand.NewSource(seed)), gv.Message(), 2, Opts{MaxDepth: 3}, nil)
@@ -183,7 +184,7 @@ func accessors(lv *levelCtx, md protoreflect.MessageDescriptor, gm, dm protorefl
 				for k := 0; k < n; k++ {
 					var gv, dvv protoreflect.Value
 					if fd.Message() != nil {
-						gv = g2.NewField(fd).List().NewElement()
+						gv = g2.NewField(gfd).List().NewElement()
 						dvv = dl.List().NewElement()
 						seed := r.Int63()
 						fill(rand.New(rand.NewSource(seed)), gv.Message(), 2, Opts{MaxDepth: 3}, nil)
@@ -197,7 +198,7 @@ func accessors(lv *levelCtx, md protoreflect.MessageDescriptor, gm, dm protorefl
 				}
 				dv = dl
 			case fd.Message() != nil:
-				gv, dvv := g2.NewField(fd), d2.NewField(fd)
+				gv, dvv := g2.NewField(gfd), d2.NewField(fd)
 				seed := r.Int63()
 				fill(rand.New(rand.NewSource(seed)), gv.Message(), 2, Opts{MaxDepth: 3}, nil)
 				fill(rand.New(rand.NewSource(seed)), dvv.Message(), 2, Opts{MaxDepth: 3}, nil)
@@ -208,8 +209,8 @@ func accessors(lv *levelCtx, md protoreflect.MessageDescriptor, gm, dm protorefl
 			}
 			set.Call([]reflect.Value{arg})
 			d2.Set(fd, dv)
-			if g2.Has(fd) != d2.Has(fd) {
-				bad("after the generated setter, protoreflect Has differs from dynamicpb after Set", fd, fmt.Sprint(g2.Has(fd), " vs ", d2.Has(fd)))
+			if g2.Has(gfd) != d2.Has(fd) {
+				bad("after the generated setter, protoreflect Has differs from dynamicpb after Set", fd, fmt.Sprint(g2.Has(gfd), " vs ", d2.Has(fd)))
 			}
 			if has := method(fd, fn.Has); has.IsValid() && has.Call(nil)[0].Bool() != d2.Has(fd) {
 				bad("after the generated setter, the generated Has method differs from dynamicpb", fd, fn.Has)
@@ -218,7 +219,7 @@ func accessors(lv *levelCtx, md protoreflect.MessageDescriptor, gm, dm protorefl
 		} else if clr := method(fd, fn.Clear); clr.IsValid() && r.Intn(3) == 0 {
 			clr.Call(nil)
 			d2.Clear(fd)
-			if g2.Has(fd) {
+			if g2.Has(gfd) {
 				bad("field still present after the generated Clear method", fd, fn.Clear)
 			}
 			hist("accessor:clear")
